@@ -2,5 +2,5 @@
 # eval_wave.sh <ID>... : for each seed k of each ID (a property id, optionally with a wave suffix such as C12b) run the
 # property's own quick check against the change; log to /tmp/seeds/<ID>/<k>/eval.txt
 for ID in "$@"; do PROP=${ID%b}; for k in 1 2 3; do d=/tmp/seeds/$ID/$k; [ -f $d/patch.diff ] || continue; [ -f $d/eval.txt ] && continue
-  B=HEAD; git -C /repo apply --check $d/patch.diff 2>/dev/null || B=3902211
+  B=$(/verif/tools/pick_base.sh $d/patch.diff)
   BASE=$B /verif/tools/eval_seed.sh $PROP $d/patch.diff quick ${SECS:-30} > $d/eval.txt 2>&1; echo "$ID/$k: $(grep -E 'signature=|EXIT=' $d/eval.txt | tr '\n' ' ' | cut -c1-300)"; done; done
